@@ -45,7 +45,7 @@ FLOORS = {
                  "seen": {"spec.rule_form": 6}},
 }
 CASE_TIMEOUT = {"quick": 60, "thorough": 120}
-SIZES = {"quick": (520, 260), "thorough": (10000, 5000)}
+SIZES = {"quick": (520, 1500), "thorough": (10000, 30000)}
 
 
 def shard_setup(tier):
@@ -73,8 +73,8 @@ def gen_cases(tier, seed):
     for i in range(nt):
         rng = intuniv.rng_for(seed, "C02t", i)
         yield {"id": k, "kind": "table", "table": table.random_table(rng, p_empty=0.15),
-               "db": rng.choice(gen.DBS), "root": 0, "rng_seed": rng.randrange(10 ** 6),
-               "smallest": rng.random() < 0.3}
+               "db": rng.choice(("forest", "forest", "forest", "forest_norev", "base", "forget")), "root": 0,
+               "rng_seed": rng.randrange(10 ** 6), "smallest": rng.random() < 0.3}
         k += 1
 
 
